@@ -71,7 +71,9 @@ def cases(tier):
                     for children in variants:
                         handles = ["container"]
                         if kind == "section-nested":
-                            handles = ["container", "creation"]
+                            handles = ["container", "creation", "via-metadata"]
+                        if kind == "section-root":
+                            handles = ["container", "via-metadata"]
                         for hk in handles:
                             yield {"kind": kind, "keep": keep, "name": namep, "dest": dest, "children": children, "handle": hk}
 
@@ -226,6 +228,11 @@ def run_case(case):
                 kid.create_property("kp", [2.5])
                 kid.create_section("leaf", "sectype").create_property("lp", ["x"])
             src = K["src"](f)
+            if hk == "via-metadata":
+                # the same section, reached through the metadata link of an entity (such a handle has no container parent)
+                src = f.blocks["blk"].metadata if kind == "section-root" else f.blocks["blk"].data_arrays["sig"].metadata
+                if src is None or src.id != K["src"](f).id:
+                    raise AssertionError("seed changed: metadata links do not lead to the expected sections")
         # entities that are called like the HDF5 dataset of an array ("data"), inside everything that gets copied
         if not (kind == "section-nested" and hk == "creation"):
             blk_ = f.blocks["blk"]
